@@ -89,7 +89,7 @@ func (g *PG) intExpr(d int) string {
 	switch k := r.Intn(17); {
 	case k == 16:
 		g.f("named-const")
-		return Pick(r, []string{"KA", "KB", "KA + 1", "KB - KA", "KC", "KD*3", "blanks(2)"})
+		return Pick(r, []string{"KA", "KB", "KA + 1", "KB - KA", "KC", "KD*3", "blanks(2)", "cok(map[string]int{\"a\": 4})"})
 	case k < 4:
 		return g.intExpr(d-1) + Pick(r, []string{" + ", " - ", " * "}) + g.intExpr(d-1)
 	case k == 4:
@@ -573,7 +573,7 @@ func (g *PG) stmt(depth int) {
 // GenProgram returns a program and the set of features it uses.
 func GenProgram(r *RNG, depth int) (GoProg, map[string]bool) {
 	g := &PG{r: r, budget: 45, feat: map[string]bool{}}
-	g.w("const KA = 7\n\nconst KB = KA*2 + 1\n\nconst (\n\t_ = iota\n\tKC\n\tKD\n)\n\nfunc blanks(n int) int {\n\tconst (\n\t\t_ = iota * 10\n\t\tk1\n\t\t_\n\t\tk3\n\t)\n\tconst _ = 7\n\treturn n*k3 + k1\n}\n\nfunc idx(k int) int {\n\tprintln(\"idx\", k)\n\treturn k %% 3\n}\n\nvar fuel = 80\n\nvar gacc = 0\n\ntype T struct {\n\tA int\n\tB int\n}\n\nfunc (t *T) Sum(k int) int {\n\treturn t.A + t.B*k\n}\n\nfunc (t *T) Inc() {\n\tt.A++\n\tt.B += 2\n}\n\n")
+	g.w("const KA = 7\n\nconst KB = KA*2 + 1\n\nconst (\n\t_ = iota\n\tKC\n\tKD\n)\n\nfunc blanks(n int) int {\n\tconst (\n\t\t_ = iota * 10\n\t\tk1\n\t\t_\n\t\tk3\n\t)\n\tconst _ = 7\n\treturn n*k3 + k1\n}\n\nfunc cok(m map[string]int) int {\n\tv, _ := m[\"a\"]\n\t_, ok := m[\"zz\"]\n\tif ok {\n\t\treturn -1\n\t}\n\treturn v\n}\n\nfunc idx(k int) int {\n\tprintln(\"idx\", k)\n\treturn k %% 3\n}\n\nvar fuel = 80\n\nvar gacc = 0\n\ntype T struct {\n\tA int\n\tB int\n}\n\nfunc (t *T) Sum(k int) int {\n\treturn t.A + t.B*k\n}\n\nfunc (t *T) Inc() {\n\tt.A++\n\tt.B += 2\n}\n\n")
 	g.w("func add(a int, b int) int {\n\treturn a + b\n}\n\nfunc isOdd(a int) bool {\n\treturn a%%2 != 0\n}\n\n")
 	g.w("func pair2(a int, b int) (int, int) {\n\treturn b, a + 1\n}\n\nfunc tri(a int) (int, int, int) {\n\treturn a, a + 1, a + 2\n}\n\n")
 	// results of other types than the parameters, returned as untyped constants: they take the result type
